@@ -68,6 +68,10 @@ def panic_api(p):
     return False
 
 
+INT_TYPES = ("u8", "u16", "u32", "u64", "u128", "usize", "i8", "i16", "i32", "i64", "i128", "isize", "char", "bool")
+# every generic argument of the callee is a totally ordered primitive type
+INT_SUBSTS = re.compile(r"^\[(&?(%s)(, )?)+\]$" % "|".join(INT_TYPES))
+
 class Site:
     __slots__ = ("fn", "kind", "what", "block", "line", "ops", "macro", "occ", "call")
 
@@ -323,11 +327,11 @@ class Analyzer:
                 out.append(("variant", self.operand_root(args[0]), "None" if truth else "Some"))
             elif re.search(r"Result::<.*>::is_ok$", p) and args and truth is not None:
                 out.append(("variant", self.operand_root(args[0]), "Ok" if truth else "Err"))
-            elif re.search(r"(PartialOrd::(lt|le|gt|ge)|cmp::impls::<impl core::cmp::PartialOrd.*>::(lt|le|gt|ge))$", p) and len(args) == 2 and truth is not None:
+            elif re.search(r"(PartialOrd::(lt|le|gt|ge)|cmp::impls::<impl core::cmp::PartialOrd.*>::(lt|le|gt|ge))$", p) and len(args) == 2 and truth is not None and self.total_order_operands(st["f"]):
                 op = {"lt": "<", "le": "<=", "gt": ">", "ge": ">="}[p.split("::")[-1]]
                 a, b2 = self.sym_deref(args[0]), self.sym_deref(args[1])
                 out.append(("cmp", op if truth else NEG[op], a, b2))
-            elif re.search(r"ops::range::Range(Inclusive)?::<.*>::contains", p) and len(args) == 2 and truth is True and self.range_bounds(args[0], line=st.get("line")) is not None:
+            elif re.search(r"ops::range::Range(Inclusive)?::<.*>::contains", p) and INT_SUBSTS.match(st["f"].get("substs") or "") and len(args) == 2 and truth is True and self.range_bounds(args[0], line=st.get("line")) is not None:
                 # `(lo..=hi).contains(&x)` holds: lo <= x and x <= hi (x < hi for a half-open range)
                 lo, hi, incl = self.range_bounds(args[0], line=st.get("line"))
                 x = self.sym_deref(args[1])
@@ -397,6 +401,15 @@ class Analyzer:
             if f[0] == "cmp" and f[1] == "==" and f[2][0] == "len" and f[3][0] == "len" and {f[2][1], f[3][1]} == {r1, r2}:
                 return True
         return False
+
+    def total_order_operands(self, f):
+        """a comparison through PartialOrd is a fact about an order (and its negation the converse fact) only for the totally ordered primitive types: for f32/f64 or a
+        user type with incomparable values (a FeelNumber that is NaN passes `(0..60).contains(&n)`) `!(a < b)` does not give `a >= b`"""
+        p = f.get("p") or ""
+        m = re.search(r"<impl core::cmp::PartialOrd for (\w+)>::", p)
+        if m:
+            return m.group(1) in INT_TYPES
+        return bool(INT_SUBSTS.match(f.get("substs") or ""))
 
     def range_bounds(self, op, depth=0, line=None):
         """(lo sym, hi sym, inclusive) of a range the operand refers to, when it is built in this body from RangeInclusive::new(lo, hi) or Range { start, end }"""
